@@ -85,7 +85,7 @@ from .util import (
     oid_ecMQV,
     MalformedSignature,
 )
-from ._compat import normalise_bytes
+from ._compat import normalise_bytes, safe_repr
 
 
 __all__ = [
@@ -455,7 +455,7 @@ class VerifyingKey(object):
         if not oid_pk == oid_ecPublicKey:
             raise der.UnexpectedDER(
                 "Unexpected object identifier in DER "
-                "encoding: {0!r}".format(oid_pk)
+                "encoding: {0}".format(safe_repr(oid_pk))
             )
         curve = find_curve(oid_curve)
         point_str, empty = der.remove_bitstring(point_str_bitstring, 0)
@@ -1048,8 +1048,8 @@ class SigningKey(object):
         if der.is_sequence(s):
             if version not in (0, 1):
                 raise der.UnexpectedDER(
-                    "expected version '0' or '1' at start of privkey, got %d"
-                    % version
+                    "expected version '0' or '1' at start of privkey, got %s"
+                    % safe_repr(version)
                 )
 
             sequence, s = der.remove_sequence(s)
@@ -1059,7 +1059,8 @@ class SigningKey(object):
 
             if algorithm_oid not in (oid_ecPublicKey, oid_ecDH, oid_ecMQV):
                 raise der.UnexpectedDER(
-                    "unexpected algorithm identifier '%s'" % (algorithm_oid,)
+                    "unexpected algorithm identifier '%s'"
+                    % safe_repr(algorithm_oid)
                 )
             if empty != b"":
                 raise der.UnexpectedDER(
@@ -1085,8 +1086,8 @@ class SigningKey(object):
         # The version of the ECPrivateKey must be 1.
         if version != 1:
             raise der.UnexpectedDER(
-                "expected version '1' at start of DER privkey, got %d"
-                % version
+                "expected version '1' at start of DER privkey, got %s"
+                % safe_repr(version)
             )
 
         privkey_str, s = der.remove_octet_string(s)
